@@ -52,11 +52,11 @@ def W(text): return text
 CHECKS.update({
     "C01": dict(category="proof",
         text="Lean 4 proofs: the comparison clamps that sit directly in front of the user callback at the COBYLA, BOBYQA, bounded-NEWUOA, rescaled-DIRECT, Nelder-Mead/Sbplx and PRAXIS sites deliver a point inside [lb,ub] for EVERY box (finite, half-infinite, infinite, degenerate), every dimension and every non-NaN proposal of the numeric core, for every arithmetic; a coordinate with lb = ub is delivered equal to the bound; dimension elimination writes the fixed coordinates from lb bit for bit for every subset of fixed coordinates and every algorithm machine (elim_equiv). Tie: the wrapper model is replayed against every recorded run (S-wrap) and the site models map the hook-recorded proposals to the points the user saw (S-glue). The in-box monitor covers every callback of every algorithm incl. nested ones.",
-        design="3/C01", note=TB + "Modelled, not verified: the numeric cores are arbitrary proposers of non-NaN points; sites without NLopt glue in front of the callback (SLSQP, Luksan, original DIRECT, StoGO, AGS, affine samplers) are monitor-only (evidence unproved_sites). Known findings: Luksan TNEWTON* finite-difference step, original DIRECT rounding for far-offset boxes, SLSQP NaN iterates.",
+        design="3/C01", note=TB + "Modelled, not verified: the numeric cores are arbitrary proposers of non-NaN points; sites without a modelled clamp in front of the callback (SLSQP, Luksan, original DIRECT's f_direct clamp, the unscaled cdirect centers, StoGO, AGS, affine samplers) are monitor-only (evidence unproved_sites). Known findings: Luksan TNEWTON* finite-difference step, SLSQP NaN iterates. Fixed by commits: COBYLA/BOBYQA unscale clamp, x_bound, rescaled and unscaled cdirect, original DIRECT.",
         technique="Lean 4 proof (order lemmas on the IEEE bit pattern; simulation over arbitrary algorithm machines) + site-level and wrapper-level differential correspondence"),
     "C02": dict(category="proof",
         text="Lean 4 proofs over the wrapper model of nlopt_optimize for an ARBITRARY algorithm machine: for the memoized families (COBYLA, TNEWTON*) the returned (x, opt_f) is bit-for-bit the first best in-box evaluation with the sign restored; no wrapper alters the algorithm's x / minf beyond expansion and sign; on every rejection x is untouched; the n = 0 object makes exactly one evaluation. Tie: every recorded run of the real library is replayed through the model (x, opt_f, code, user trace bitwise). Monitor: returned x bitwise in the objective trace with its value, inside the box, STOPVAL_REACHED only when reached, for all algorithms and early exits.",
-        design="3/C02", note=TB + "Not modelled: the incumbent bookkeeping inside f2c / third-party cores (monitor only). Known findings: original DIRECT with constraints and no feasible sample (opt_f = +Inf), AUGLAG when the first subsidiary run ends ROUNDOFF_LIMITED.",
+        design="3/C02", note=TB + "Not modelled: the incumbent bookkeeping inside f2c / third-party cores (monitor only). Known findings: original DIRECT with constraints and no feasible sample (opt_f = +Inf), AUGLAG when the first subsidiary run ends ROUNDOFF_LIMITED, constrained COBYLA returning x re-derived with last-bit differences. Fixed by commits: NEWUOA L530, original DIRECT final x, memo copy-back.",
         technique="Lean 4 proof (invariant over runAlg for arbitrary algorithms; running-minimum fold) + replay correspondence"),
     "C05": dict(category="proof",
         text="Lean 4 proof (memo_returns_best_evaluated): for COBYLA and the truncated-Newton family, for every algorithm machine, opt_f is the minimum over the in-box evaluations (first minimiser, strict improvement rule), sign restored when maximizing. Controlled Random Search: the population rule of crs.c (insert every initial point; a trial replaces the worst member iff it is strictly better; report the tree minimum) is modelled (Model/Crs.lean) and proved to report the best value ever evaluated for every initial population and trial sequence (Props/C05Crs.lean: crs_best_is_min, crs_result_mono; NaN witness); every CRS run is replayed through that model (inc stream). The list of memoized algorithms is pinned (Props/C05.lean). For the other listed incumbent-keeping algorithms the running-minimum monitor compares opt_f with the in-bounds trace on every run (budget sweep 1..N, converged runs); the wrapper replay shows no layer changes the algorithm's result.",
@@ -64,7 +64,7 @@ CHECKS.update({
         technique="Lean 4 proof for the memoized families and the CRS population rule + running-minimum monitor + replay correspondence"),
     "C07": dict(category="proof",
         text="Lean 4 proof (optimize_preserves_settings): for every algorithm machine, user and return path the object's user-visible settings after nlopt_optimize equal those before (maximize flip and stopval sign undone via neg(neg s) = s on the bit pattern, an unset initial step stays unset); determinism of the model is by construction, its premise for the code is the regenerated table of writable globals (no_hidden_state, rng_and_timer_are_tls over nm/readelf of the fresh build). Monitor: the same problem in two processes, twice on one object (reseeded) and on a copy gives bitwise equal traces and results; getter snapshots before = after on every path.",
-        design="3/C07", note=TB + "Nondeterminism from uninitialised reads inside numeric cores is not expressible in the model. Known shared mutable globals (StoGO counters) are a C16 finding.",
+        design="3/C07", note=TB + "Nondeterminism from uninitialised reads inside numeric cores is not expressible in the model. Fixed by commits: numevals for n = 0, StoGO / MMA process-wide variables (see C16).",
         technique="Lean 4 proof over arbitrary algorithm machines + generated global-symbol table (decide) + pair runs"),
     "C08": dict(category="proof",
         text="Lean 4 proof (max_is_min_neg): for every algorithm machine, user and layer stack, maximizing f with stopval s and minimizing -f with stopval -s hand the algorithm the same problem and indistinguishable callbacks (simulation lemma), hence equal evaluation points, x and code, opt_f the exact negation, and the object still reports maximize / stopval s. Tie: both runs of every pair are replayed through the model. Monitor: bitwise pair comparison for all algorithms. Preconditioners (pre_max, CCSAQ only) are outside the wrapper model: Props/C08.lean states what pre_max must deliver (premax_is_pre_of_neg, for every preconditioner, point and vector), hook event 42 ties it to optimize.c on every preconditioner call of the pair runs.",
@@ -98,11 +98,11 @@ CHECKS.update({
 CHECKS.update({
     "C03": dict(category="proof",
         text="Lean 4 proofs over a transcription of stop.c and of the limit plumbing of optimize.c: nlopt_stop_evals fires exactly from the maxeval-th counted evaluation on (iff, monotone in the count), nlopt_stop_time is monotone in the clock under a monotone subtraction, maxeval <= 0 / maxtime <= 0 mean no limit, MAXEVAL/MAXTIME are sound (reported only when the budget is used up), the override rule of nlopt_optimize_limited is the minimum of the two budgets when both are positive (incl. the zero-budget-means-unlimited hazard, stated), and nlopt_get_numevals is the algorithm's counter for every algorithm machine. Tie: the stop predicates are evaluated by model and library on the same inputs (S-stop stream, virtual clock through the hook), every recorded run is replayed through the wrapper model. Monitor with calibrated per-family overshoot bounds: for every algorithm and nesting the number of objective evaluations after the limit, the reported code (MAXEVAL/MAXTIME only when the budget is used up), numevals = counted evaluations, and termination under a watchdog, incl. NaN/Inf objective values.",
-        design="3/C03", note=TB + "The position of the limit tests inside each numeric core is monitored (bounded overshoot per family), not proved. Known findings: NEWUOA / NEWUOA_BOUND (and the algorithms that nest them) do not terminate after an Inf/NaN objective value; AGS with constraints counts trials; StoGO does not terminate for boxes far from the origin. Fixed by commits: CRS limits, AUGLAG sub-budget, AGS crash.",
+        design="3/C03", note=TB + "The position of the limit tests inside each numeric core is monitored (bounded overshoot per family), not proved. Known findings: COBYLA (and algorithms nesting it) after a huge / non-finite objective value, CCSAQ with a preconditioner after an infinite value, AGS with constraints counts trials, StoGO for boxes far from the origin. Fixed by commits: CRS limits, AUGLAG sub-budget, AGS crash, MMA/CCSA NaN guard (NEWUOA hang).",
         technique="Lean 4 proof (stop predicates, budget arithmetic) + stop-stream correspondence + overshoot monitor"),
     "C04": dict(category="proof",
         text="Lean 4 proofs over the wrapper model for an ARBITRARY algorithm machine: the stop request raised in a callback is visible to the algorithm in the very next answer (stop_request_forwarded), no layer swallows it, every wrapper passes the algorithm's FORCED_STOP code and x through unchanged, the flag value set by nlopt_set_force_stop is stored verbatim and cleared at the start of the next run. Tie: runs with a stop raised at callback k are replayed through the model. Monitor: for every algorithm and k, FORCED_STOP is returned, at most a family-specific number of further callbacks occurs, the next run on the same object starts clean.",
-        design="3/C04", note=TB + "Where each core tests the flag is monitored, not proved. Known finding: a problem without free variables makes its single evaluation and returns SUCCESS without testing the flag. Fixed by commits: CRS initial population, Luksan, NEWUOA, AGS, StoGO.",
+        design="3/C04", note=TB + "Where each core tests the flag is monitored, not proved. Fixed by commits: CRS initial population, Luksan, NEWUOA, AGS, StoGO, BOBYQA, the problem without free variables (model updated with the code: zero_dim_forced_stop).",
         technique="Lean 4 proof (flag propagation through arbitrary algorithm machines) + replay correspondence + per-k monitor"),
     "C06": dict(category="proof",
         text="Lean 4 proofs over models of the two NLopt-authored feasible-incumbent rules. SLSQP driver rule: with tolerances separating feasible from infeasible points the reported point is the best feasible evaluation (slsqp_best_feasible_partial); the full-strength statement is refuted by a concrete witness (slsqp_best_feasible_full_false: with unequal tolerances an infeasible incumbent can shadow feasible points) which is replayed on the real library on every run (harness/wit_slsqp.c, known finding). ISRES rule (Model/Isres.lean, Props/C06Isres.lean): for inequality constraints, if a feasible point was evaluated the incumbent is the first feasible point of minimal value, it stays feasible and never gets worse (isres_best_feasible, isres_first_best, isres_minf_mono_run) under the hypotheses NoNaNFeas and InfeasPos; each hypothesis is shown necessary by a decide-proved witness, and the underflow witness (squared violation rounds to 0) is replayed on the library (harness/wit_isres.c, known finding). Tie: both rules are replayed over the evaluated points of every SLSQP / ISRES run (inc stream) and the model's incumbent is compared bitwise with the returned (x, opt_f). For the other constraint-capable algorithms (COBYLA, MMA, CCSAQ, AUGLAG, ORIG_DIRECT, AGS) the monitor compares the result with the best feasible entry of the recorded trace (tolerances as documented), incl. active constraints with unequal tolerances and several generations of ISRES.",
@@ -110,11 +110,11 @@ CHECKS.update({
         technique="Lean 4 proof (incumbent folds for SLSQP and ISRES, witnesses for the refuted full statements replayed on the library) + incumbent-rule replay correspondence + best-feasible monitor"),
     "C09": dict(category="proof",
         text="Lean 4 proofs over the wrapper model: every ill-posed call (NULL handle, missing objective, NULL x / opt_f, lb > ub, x0 outside the box or off a fixed coordinate, unsupported constraints, missing subsidiary optimizer, population / dimension restrictions) returns its documented negative code before any callback, with x, opt_f and the object untouched (rejected_*, ill_posed_rejected, null_handle_rejected); the accepted/rejected decision is a total function of the settings. Tie: every malformed spec is run on the library and through the model (code, no callbacks, getters before = after). Monitor: malformed stream of the generator covering each rejection branch.",
-        design="3/C09", note=TB + "Rejections raised inside numeric cores after the first callback (e.g. BOBYQA step scaling) are monitored only. Fixed by commits: NULL handle crash, fixed-coordinate x0.",
+        design="3/C09", note=TB + "Rejections raised inside numeric cores after the first callback (e.g. BOBYQA step scaling) are monitored only. Fixed by commits: NULL handle crash, fixed-coordinate x0, BOBYQA modifying x on rejection.",
         technique="Lean 4 proof (decision logic stated outright) + malformed-input correspondence"),
     "C10": dict(category="other",
         text="PARTIAL. Proved in Lean 4 for every n, m, population: the work-space partitions of MMA, CCSA, ISRES, Subplex, AUGLAG and PRAXIS fit their allocation (58 theorems regenerated on every run from the malloc size expression and the pointer chain in the C source; the required length of each segment is the hand-written spec), plus row/point index arithmetic of the population methods. NOT proved (no Lean model can carry it): memory safety of the f2c / C++ cores, leaks, undefined arithmetic. These are explored: every run executes all 43 algorithms x n in 1..12 x population / vector storage from 1 x constraints x subsidiary optimizers x NaN/Inf/huge injections under AddressSanitizer + UBSan with a leak check per run; any report, crash or undocumented code is a violation.",
-        design="3/C10", note=TB + "Sanitizer runs are sampling, not proof. Fixed by commits: AGS evolvent index, BOBYQA overrun, ORIG_DIRECT unset index.",
+        design="3/C10", note=TB + "Sanitizer runs are sampling, not proof. Fixed by commits: AGS evolvent index, BOBYQA overrun, ORIG_DIRECT unset index, StoGO exit().",
         technique="Lean 4 proof of generated work-space arithmetic (translator from malloc/partition source text) + sanitizer exploration (not a proof)"),
     "C16": dict(category="other",
         text="PARTIAL. Proved in Lean 4: for EVERY interleaving, a thread whose steps touch only its own component ends in the state of its solo run (interleaving_noninterference, schedules_agree). The footprint premise is regenerated from the fresh build on every run: the table of writable non-thread-local symbols of libnlopt.a contains only allow-listed ones (no_hidden_state), no source line outside definitions and the documented legacy setters assigns one of them (allowed_globals_never_written), the generator and clock are thread-local. NOT provable in a Lean model: data races and the C memory model. Explored: the same jobs (own object, own srand) on 1 and on K threads must give bitwise equal traces and results; the K-thread run is repeated under ThreadSanitizer, every report is a violation.",
